@@ -26,8 +26,17 @@ def demo_files(mdir):
 
 def place_demo(mdir, wt):
     """copies the demonstration test(s) into the worktree: the target package is read from the file's package clause
-    and a `// place in:` / path hint in its header or the README"""
+    and a `// place in:` / path hint in its header or the README; a delivery with a demo/ sub-tree is copied as it is"""
     placed = []
+    dd = os.path.join(mdir, "demo")
+    if os.path.isdir(dd):
+        for root, _, fs in os.walk(dd):
+            for f in fs:
+                rel = os.path.relpath(root, dd)
+                os.makedirs(os.path.join(wt, rel), exist_ok=True)
+                shutil.copy(os.path.join(root, f), os.path.join(wt, rel, f))
+                placed.append((rel, f))
+        return placed
     readme = open(os.path.join(mdir, "README.md")).read() if os.path.exists(os.path.join(mdir, "README.md")) else ""
     for f in demo_files(mdir):
         src = open(os.path.join(mdir, f)).read()
@@ -62,11 +71,15 @@ def verify(prop, mdir, sid):
         patch = os.path.join(mdir, "patch.diff")
         placed = place_demo(mdir, wt)
         pkgs = sorted(set("./" + t for t, _ in placed))
-        tags = ["-tags", "verif"] if any("verif" in open(os.path.join(mdir, f)).read()[:400] for _, f in placed) else []
+        def src_of(t, f):
+            p1 = os.path.join(mdir, f)
+            return p1 if os.path.exists(p1) else os.path.join(mdir, "demo", t, f)
+        tags = ["-tags", "verif"] if any("verif" in open(src_of(t, f)).read()[:400] for t, f in placed) else []
         names = []
         import re
-        for _, f in placed:
-            names += re.findall(r"^func (Test\w+)\(", open(os.path.join(mdir, f)).read(), re.M)
+        for t, f in placed:
+            if f.endswith("_test.go"):
+                names += re.findall(r"^func (Test\w+)\(", open(src_of(t, f)).read(), re.M)
         runarg = ["-run", "^(" + "|".join(names) + ")$"] if names else []
         democmd = ["go", "test", "-vet=off", "-count=1"] + tags + runarg + pkgs
         rc0, out0 = sh(democmd, cwd=wt)
@@ -109,8 +122,12 @@ def verify(prop, mdir, sid):
         os.makedirs(d, exist_ok=True)
         if os.path.abspath(mdir) != os.path.abspath(d):
             shutil.copy(patch, os.path.join(d, "patch.diff"))
-            for _, f in placed:
-                shutil.copy(os.path.join(mdir, f), os.path.join(d, f))
+            for t, f in placed:
+                if os.path.exists(os.path.join(mdir, f)):
+                    shutil.copy(os.path.join(mdir, f), os.path.join(d, f))
+                else:
+                    os.makedirs(os.path.join(d, "demo", t), exist_ok=True)
+                    shutil.copy(os.path.join(mdir, "demo", t, f), os.path.join(d, "demo", t, f))
             if os.path.exists(os.path.join(mdir, "README.md")):
                 shutil.copy(os.path.join(mdir, "README.md"), os.path.join(d, "README.md"))
         meta = {"id": sid, "breaks_property": prop, "needs_to_manifest": "see README.md", "confirmation": res, "checks": {}}
